@@ -28,7 +28,8 @@ use rustc_middle::mir::{
     self, AggregateKind, AssertKind, Body, Const as MirConst, Operand, Place, ProjectionElem,
     Rvalue, StatementKind, TerminatorKind,
 };
-use rustc_middle::ty::print::with_no_trimmed_paths;
+use rustc_middle::ty::print::{with_no_trimmed_paths as wntp, with_no_visible_paths, with_resolve_crate_name};
+macro_rules! with_no_trimmed_paths { ($e:expr) => { wntp!(with_no_visible_paths!(with_resolve_crate_name!($e))) } }
 use rustc_middle::ty::{self, Ty, TyCtxt};
 use rustc_span::{ExpnKind, Span};
 use std::fmt::Write as _;
@@ -73,12 +74,8 @@ fn crate_name(tcx: TyCtxt<'_>) -> String {
 
 /// Path of a definition, always starting with its crate name.
 fn qpath(tcx: TyCtxt<'_>, did: DefId) -> String {
-    let s = with_no_trimmed_paths!(tcx.def_path_str(did));
-    if did.is_local() && !s.starts_with('<') {
-        format!("{}::{}", crate_name(tcx), s)
-    } else {
-        s
-    }
+    let _ = crate_name;
+    with_no_trimmed_paths!(tcx.def_path_str(did))
 }
 
 fn ty_str(t: Ty<'_>) -> String {
